@@ -31,14 +31,16 @@ func newBase(rule rule) Base {
 			comment = rule[len(rule)-1].comment
 		}
 	}
-	switch {
-	case strings.Contains(comment, "file_inherit"):
+	// The markers can be combined (merged rules), in the order they are rendered
+	if strings.Contains(comment, "file_inherit") {
 		fileInherit = true
 		comment = stripMarker(comment, "file_inherit")
-	case strings.HasPrefix(comment, "no new privs"):
+	}
+	if strings.HasPrefix(strings.TrimPrefix(comment, " "), "no new privs") {
 		noNewPrivs = true
-		comment = strings.Replace(comment, "no new privs ", "", 1)
-	case strings.Contains(comment, "optional:"):
+		comment = stripMarker(comment, "no new privs")
+	}
+	if strings.Contains(comment, "optional:") {
 		optional = true
 		comment = stripMarker(comment, "optional:")
 	}
